@@ -868,6 +868,369 @@ Proof.
     + cbn in Hc, Ho. now apply (Hall n).
 Qed.
 
+(* ---------------------------------------------------------------------------------------------- *)
+(* Key spelling: chain entries whose keys are written in any case *)
+
+#[local] Arguments eq_ci : simpl never.
+
+Lemma eq_ci_refl : forall k, eq_ci k k = true.
+Proof. intro k. unfold eq_ci. apply String.eqb_refl. Qed.
+
+Lemma lookup_in_ci : forall o k v, lookup k o = Some v -> In (k, v) (ci_entries k o).
+Proof.
+  intros o k v H. unfold ci_entries. apply filter_In. split.
+  - now apply lookup_some_in.
+  - cbn. apply eq_ci_refl.
+Qed.
+
+Lemma lookup_fold_hd : forall k o,
+  lookup_fold k o = option_map snd (hd_error (ci_entries k o)).
+Proof.
+  intros k o. induction o as [|[k' v'] o IH]; [reflexivity|].
+  unfold ci_entries in *. cbn [lookup_fold filter fst]. destruct (eq_ci k' k); [reflexivity|exact IH].
+Qed.
+
+Lemma lookup_ci_in_values : forall k o v, lookup_ci k o = Some v -> In v (ci_values k o).
+Proof.
+  intros k o v. unfold lookup_ci, ci_values.
+  destruct (lookup k o) as [w|] eqn:E.
+  - intros [= <-]. apply lookup_in_ci in E. now apply (in_map snd) in E.
+  - rewrite lookup_fold_hd. destruct (ci_entries k o) as [|[s w] r]; [discriminate|].
+    cbn. intros [= <-]. now left.
+Qed.
+
+Lemma lookup_ci_none_values : forall k o, lookup_ci k o = None -> ci_values k o = [].
+Proof.
+  intros k o. unfold lookup_ci, ci_values.
+  destruct (lookup k o) as [w|]; [discriminate|].
+  rewrite lookup_fold_hd. destruct (ci_entries k o) as [|[s w] r]; [reflexivity|discriminate].
+Qed.
+
+Lemma ids_valid_values : forall o,
+  ids_valid o = forallb id_value_valid (ci_values "id" o).
+Proof.
+  induction o as [|[k v] o IH]; [reflexivity|].
+  unfold ids_valid, ci_values, ci_entries in *. cbn [forallb filter fst snd].
+  destruct (eq_ci k "id"); cbn [map snd forallb]; now rewrite IH.
+Qed.
+
+Lemma ids_valid_iff : forall o,
+  ids_valid o = true <-> forall v, In v (ci_values "id" o) -> id_value_valid v = true.
+Proof. intro o. rewrite ids_valid_values. apply forallb_forall. Qed.
+
+(* an entry that writes the id once - under whatever spelling of the key *)
+Lemma single_id_lookup : forall o s v, ci_entries "id" o = [(s, v)] ->
+  lookup_ci "id" o = Some v /\ ids_valid o = id_value_valid v.
+Proof.
+  intros o s v H. split.
+  - unfold lookup_ci. destruct (lookup "id" o) as [w|] eqn:E.
+    + apply lookup_in_ci in E. rewrite H in E. destruct E as [[= _ ->]|[]]. reflexivity.
+    + rewrite lookup_fold_hd, H. reflexivity.
+  - rewrite ids_valid_values. unfold ci_values. rewrite H. cbn. now rewrite andb_true_r.
+Qed.
+
+Lemma validate_doc_some : forall d cfg, validate_doc d = Some cfg ->
+  (cd_shared d = true -> loader_pre (cd_entry d) = true) /\
+  ids_valid (cd_entry d) = true /\ validate (doc_in d) = Some cfg.
+Proof.
+  intros d cfg. unfold validate_doc, validate_doc_with.
+  destruct (cd_shared d); cbn [andb].
+  - destruct (loader_pre (cd_entry d)); cbn [negb]; [|discriminate].
+    destruct (ids_valid (cd_entry d)); cbn [negb]; [|discriminate]. auto.
+  - destruct (ids_valid (cd_entry d)); cbn [negb]; [|discriminate]. intro H. split; [discriminate|auto].
+Qed.
+
+Lemma doc_none_iff : forall d,
+  validate_doc d = None <->
+  ((cd_shared d = true /\ loader_pre (cd_entry d) = false) \/
+   (exists v, In v (ci_values "id" (cd_entry d)) /\ id_value_valid v = false) \/
+   validate (doc_in d) = None).
+Proof.
+  intro d. unfold validate_doc, validate_doc_with.
+  destruct (cd_shared d && negb (loader_pre (cd_entry d))) eqn:E1.
+  { split; auto. intros _. left. apply andb_prop in E1 as [-> E1]. split; auto.
+    now destruct (loader_pre (cd_entry d)). }
+  destruct (ids_valid (cd_entry d)) eqn:E2; cbn [negb].
+  - split; auto. intros [[Hs Hl]|[[v [Hin Hv]]|H]]; auto.
+    + rewrite Hs, Hl in E1. discriminate.
+    + rewrite (proj1 (ids_valid_iff _) E2 v Hin) in Hv. discriminate.
+  - split; auto. intros _. right. left.
+    rewrite ids_valid_values in E2.
+    assert (Hex : existsb (fun v => negb (id_value_valid v)) (ci_values "id" (cd_entry d)) = true).
+    { clear -E2. induction (ci_values "id" (cd_entry d)) as [|a l IH]; [discriminate|].
+      cbn in *. destruct (id_value_valid a); cbn in *; auto. }
+    apply existsb_exists in Hex as [v [Hin Hv]]. exists v. split; auto. now destruct (id_value_valid v).
+Qed.
+
+(* the id of an accepted configuration is one of the numbers written under a spelling of "id", it is
+   a domain id, and every value written under any spelling passed the range check *)
+Lemma doc_id_written : forall d cfg, validate_doc d = Some cfg ->
+  In (JNum (cc_id cfg)) (ci_values "id" (cd_entry d)) /\ 0 <= cc_id cfg <= 255 /\
+  (forall v, In v (ci_values "id" (cd_entry d)) -> id_value_valid v = true).
+Proof.
+  intros d cfg H. apply validate_doc_some in H as (_ & Hv & H).
+  pose proof (validate_with_some _ _ _ _ H) as (Hm & _).
+  destruct (chain_id_value _ _ H) as [Hid Hr].
+  split; [|split; [exact Hr|now apply ids_valid_iff]].
+  cbn in Hm, Hid. destruct (lookup_ci "id" (cd_entry d)) as [v|] eqn:E.
+  - subst v. now apply lookup_ci_in_values.
+  - rewrite orb_true_r in Hm. discriminate.
+Qed.
+
+(* restated over entries with any spelling of the key: with the id written once as (s, v), s any
+   spelling of "id", the id check passes and yields i iff v is the integer i in 0..255 *)
+Lemma doc_id_accept_iff : forall d s v i, ci_entries "id" (cd_entry d) = [(s, v)] ->
+  (ids_valid (cd_entry d) = true /\ accept_id (ci_id (doc_in d)) = Some i) <->
+  exists z, v = JNum z /\ 0 <= z <= 255 /\ i = z.
+Proof.
+  intros d s v i H. destruct (single_id_lookup _ _ _ H) as [Hl Hv].
+  cbn [doc_in ci_id]. rewrite Hl, Hv. rewrite <- accept_id_iff. split.
+  - now intros [_ Ha].
+  - intro Ha. split; [|exact Ha].
+    apply accept_id_iff in Ha as [z [-> [Hz _]]]. cbn. lia.
+Qed.
+
+Lemma doc_single_id_value : forall d s v cfg, ci_entries "id" (cd_entry d) = [(s, v)] ->
+  validate_doc d = Some cfg -> v = JNum (cc_id cfg) /\ 0 <= cc_id cfg <= 255.
+Proof.
+  intros d s v cfg H Hd. destruct (doc_id_written _ _ Hd) as [Hin [Hr _]].
+  unfold ci_values in Hin. rewrite H in Hin. destruct Hin as [Hin|[]]. cbn in Hin. auto.
+Qed.
+
+Lemma num_field_values : forall k o, forallb (fun kv : string * jv =>
+    if eq_ci (fst kv) k then match snd kv with JNum _ => true | _ => false end else true) o = true ->
+  match num_field k o with
+  | Some z => In (JNum z) (ci_values k o)
+  | None => ci_values k o = []
+  end.
+Proof.
+  intros k o Hwf. unfold num_field. destruct (lookup_ci k o) as [v|] eqn:E.
+  - pose proof (lookup_ci_in_values _ _ _ E) as Hin.
+    assert (Hn : match v with JNum _ => True | _ => False end).
+    { unfold ci_values, ci_entries in Hin. apply in_map_iff in Hin as [[s w] [Hw Hin]].
+      cbn in Hw. subst w. apply filter_In in Hin as [Hin Hs]. cbn in Hs.
+      rewrite forallb_forall in Hwf. specialize (Hwf _ Hin). cbn in Hwf. rewrite Hs in Hwf.
+      destruct v; try discriminate. exact I. }
+    destruct v; try contradiction. exact Hin.
+  - now apply lookup_ci_none_values.
+Qed.
+
+Lemma doc_wf_key : forall d k, doc_wf d = true -> numeric_key k = true ->
+  (forall s, eq_ci s k = true -> numeric_key s = true) ->
+  forallb (fun kv : string * jv =>
+    if eq_ci (fst kv) k then match snd kv with JNum _ => true | _ => false end else true) (cd_entry d) = true.
+Proof.
+  intros d k Hwf Hk Hs. unfold doc_wf in Hwf. rewrite forallb_forall in *.
+  intros [s v] Hin. specialize (Hwf _ Hin). cbn in *.
+  destruct (eq_ci s k) eqn:E; [|reflexivity]. now rewrite (Hs _ E) in Hwf.
+Qed.
+
+Lemma eq_ci_numeric : forall k, numeric_key k = true -> forall s, eq_ci s k = true -> numeric_key s = true.
+Proof.
+  intros k Hk s Hs. unfold numeric_key, eq_ci in *. apply String.eqb_eq in Hs. now rewrite Hs.
+Qed.
+
+Lemma field_ok_any_default : forall dflt o vs, 1 <= dflt -> 1 <= with_default dflt o ->
+  match o with Some z => In (JNum z) vs | None => vs = [] end ->
+  field_ok_any vs (with_default dflt o) = true.
+Proof.
+  intros dflt o vs Hd Hp Hin. destruct o as [z|].
+  - unfold field_ok_any. destruct vs as [|a l]; [destruct Hin|].
+    apply existsb_exists. exists (JNum z). split; [exact Hin|].
+    now apply field_ok_default.
+  - subst vs. cbn in *. lia.
+Qed.
+
+Lemma doc_ok_model : forall d, doc_wf d = true -> doc_ok d (model_doc d) = true.
+Proof.
+  intros d Hwf. unfold model_doc, obs_of.
+  destruct (validate_doc d) as [cfg|] eqn:E; [|reflexivity].
+  destruct (doc_id_written _ _ E) as [Hin [Hr _]].
+  apply validate_doc_some in E as (_ & _ & E).
+  destruct (validate_positive _ _ E) as [Hi Hc].
+  destruct (validate_values _ _ E) as [Hs [Hvi Hvc]].
+  destruct (calc_start_total (cc_start cfg) (cc_interval cfg) Hi) as [z [Hz _]].
+  unfold doc_ok. rewrite Hz. cbn [doc_in ci_kind ci_interval ci_confs ci_start] in *.
+  assert (F0 : id_ok_any (ci_values "id" (cd_entry d)) (cc_id cfg) = true).
+  { unfold id_ok_any.
+    assert (Hin' : In (JNum (cc_id cfg)) (filter is_num (ci_values "id" (cd_entry d)))).
+    { apply filter_In. split; [exact Hin|reflexivity]. }
+    destruct (filter is_num (ci_values "id" (cd_entry d))) as [|a l] eqn:Ef; [reflexivity|].
+    apply existsb_exists. exists (JNum (cc_id cfg)). split; [exact Hin'|].
+    cbn. rewrite Z.eqb_refl. lia. }
+  rewrite F0. cbn [andb].
+  assert (K1 : numeric_key "blockInterval" = true) by reflexivity.
+  assert (K2 : numeric_key "blockConfirmations" = true) by reflexivity.
+  assert (K3 : numeric_key "startBlock" = true) by reflexivity.
+  pose proof (num_field_values _ _ (doc_wf_key d _ Hwf K1 (eq_ci_numeric _ K1))) as N1.
+  pose proof (num_field_values _ _ (doc_wf_key d _ Hwf K2 (eq_ci_numeric _ K2))) as N2.
+  pose proof (num_field_values _ _ (doc_wf_key d _ Hwf K3 (eq_ci_numeric _ K3))) as N3.
+  assert (F1 : field_ok_any (ci_values "blockInterval" (cd_entry d)) (cc_interval cfg) = true).
+  { rewrite Hvi. apply field_ok_any_default; [unfold default_interval; lia|now rewrite <- Hvi|exact N1]. }
+  rewrite F1.
+  assert (F3 : start_ok_any (ci_values "startBlock" (cd_entry d)) (cc_start cfg) = true).
+  { rewrite Hs. unfold start_ok_any.
+    destruct (num_field "startBlock" (cd_entry d)) as [w|].
+    - destruct (ci_values "startBlock" (cd_entry d)) as [|a l]; [destruct N3|].
+      apply existsb_exists. exists (JNum w). split; [exact N3|]. cbn. apply Z.eqb_refl.
+    - rewrite N3. reflexivity. }
+  rewrite F3.
+  destruct (uses_confs (cd_kind d)) eqn:Eu.
+  - specialize (Hc eq_refl). specialize (Hvc eq_refl).
+    assert (F2 : field_ok_any (ci_values "blockConfirmations" (cd_entry d)) (cc_confs cfg) = true).
+    { rewrite Hvc. apply field_ok_any_default; [unfold default_confs; lia|now rewrite <- Hvc|exact N2]. }
+    rewrite F2. lia.
+  - lia.
+Qed.
+
+(* the judge does not depend on the order in which the entry is listed *)
+Lemma existsb_rev : forall (A : Type) (f : A -> bool) l, existsb f (rev l) = existsb f l.
+Proof.
+  intros A f l. induction l as [|a l IH]; [reflexivity|].
+  cbn. rewrite existsb_app, IH. cbn. rewrite orb_false_r. apply orb_comm.
+Qed.
+
+Lemma filter_rev' : forall (A : Type) (f : A -> bool) l, filter f (rev l) = rev (filter f l).
+Proof.
+  intros A f l. induction l as [|a l IH]; [reflexivity|].
+  cbn. rewrite filter_app, IH. cbn. destruct (f a); cbn; [reflexivity|apply app_nil_r].
+Qed.
+
+Lemma ci_values_rev : forall k o, ci_values k (rev o) = rev (ci_values k o).
+Proof. intros k o. unfold ci_values, ci_entries. now rewrite filter_rev', map_rev. Qed.
+
+Lemma rev_is_nil : forall (A : Type) (l : list A), rev l = [] -> l = [].
+Proof. intros A l H. apply (f_equal (@rev A)) in H. now rewrite rev_involutive in H. Qed.
+
+Lemma id_ok_any_rev : forall vs got, id_ok_any (rev vs) got = id_ok_any vs got.
+Proof.
+  intros vs got. unfold id_ok_any. rewrite filter_rev'.
+  destruct (filter is_num vs) as [|a l] eqn:E; [reflexivity|].
+  destruct (rev (a :: l)) as [|b m] eqn:Er; [apply rev_is_nil in Er; discriminate|].
+  rewrite <- Er. apply existsb_rev.
+Qed.
+
+Lemma field_ok_any_rev : forall vs got, field_ok_any (rev vs) got = field_ok_any vs got.
+Proof.
+  intros vs got. unfold field_ok_any. destruct vs as [|a l]; [reflexivity|].
+  destruct (rev (a :: l)) as [|b m] eqn:Er; [apply rev_is_nil in Er; discriminate|].
+  rewrite <- Er. apply existsb_rev.
+Qed.
+
+Lemma start_ok_any_rev : forall vs got, start_ok_any (rev vs) got = start_ok_any vs got.
+Proof.
+  intros vs got. unfold start_ok_any. destruct vs as [|a l]; [reflexivity|].
+  destruct (rev (a :: l)) as [|b m] eqn:Er; [apply rev_is_nil in Er; discriminate|].
+  rewrite <- Er. apply existsb_rev.
+Qed.
+
+Lemma doc_ok_rev : forall d o, doc_ok (rev_doc d) o = doc_ok d o.
+Proof.
+  intros d [[cfg r]|]; [|reflexivity]. unfold doc_ok, rev_doc. cbn [cd_entry cd_kind].
+  now rewrite !ci_values_rev, id_ok_any_rev, !field_ok_any_rev, start_ok_any_rev.
+Qed.
+
+Lemma forallb_rev : forall (A : Type) (f : A -> bool) l, forallb f (rev l) = forallb f l.
+Proof.
+  intros A f l. induction l as [|a l IH]; [reflexivity|].
+  cbn. rewrite forallb_app, IH. cbn. rewrite andb_true_r. apply andb_comm.
+Qed.
+
+Lemma doc_wf_rev : forall d, doc_wf (rev_doc d) = doc_wf d.
+Proof. intro d. unfold doc_wf, rev_doc. cbn [cd_entry]. apply forallb_rev. Qed.
+
+(* whichever order Go visits the map in, the judge accepts what the model does *)
+Lemma doc_ok_model_any_order : forall d, doc_wf d = true ->
+  doc_ok d (model_doc d) = true /\ doc_ok d (model_doc (rev_doc d)) = true.
+Proof.
+  intros d Hwf. split; [now apply doc_ok_model|].
+  rewrite <- doc_ok_rev. apply doc_ok_model. now rewrite doc_wf_rev.
+Qed.
+
+Lemma existsb_num_in : forall (P : Z -> bool) vs,
+  existsb (fun v => match v with JNum z => P z | _ => false end) vs = true ->
+  exists z, In (JNum z) vs /\ P z = true.
+Proof.
+  intros P vs H. apply existsb_exists in H as [v [Hin Hv]].
+  destruct v as [z| | |]; try discriminate. now exists z.
+Qed.
+
+Lemma field_ok_any_sound : forall vs got, field_ok_any vs got = true ->
+  (vs = [] /\ 1 <= got) \/ exists z, In (JNum z) vs /\ (z <> 0 -> got = z) /\ (z = 0 -> 1 <= got).
+Proof.
+  intros vs got. unfold field_ok_any. destruct vs as [|a l].
+  - cbn. intro H. left. split; [reflexivity|lia].
+  - intro H. right. apply existsb_num_in in H as [z [Hin Hz]]. exists z. split; [exact Hin|].
+    cbn in Hz. destruct (z =? 0) eqn:E; split; intros; lia.
+Qed.
+
+Lemma doc_ok_sound : forall d cfg r, doc_ok d (Some (cfg, r)) = true ->
+  let e := cd_entry d in
+  ((exists v, In v (ci_values "id" e) /\ is_num v = true) ->
+   In (JNum (cc_id cfg)) (ci_values "id" e) /\ 0 <= cc_id cfg <= 255) /\
+  1 <= cc_interval cfg /\
+  ((ci_values "blockInterval" e = [] /\ 1 <= cc_interval cfg) \/
+   exists z, In (JNum z) (ci_values "blockInterval" e) /\ (z <> 0 -> cc_interval cfg = z) /\ (z = 0 -> 1 <= cc_interval cfg)) /\
+  (uses_confs (cd_kind d) = true ->
+   1 <= cc_confs cfg /\
+   ((ci_values "blockConfirmations" e = [] /\ 1 <= cc_confs cfg) \/
+    exists z, In (JNum z) (ci_values "blockConfirmations" e) /\ (z <> 0 -> cc_confs cfg = z) /\ (z = 0 -> 1 <= cc_confs cfg))) /\
+  ((ci_values "startBlock" e = [] /\ cc_start cfg = 0) \/ In (JNum (cc_start cfg)) (ci_values "startBlock" e)) /\
+  r <> Panic.
+Proof.
+  intros d cfg r. unfold doc_ok. intro H. cbn zeta.
+  apply andb_prop in H as [H Hr]. apply andb_prop in H as [H Hs].
+  apply andb_prop in H as [H Hc]. apply andb_prop in H as [H Hfi]. apply andb_prop in H as [Hid Hi].
+  split; [|split; [lia|split; [now apply field_ok_any_sound|split; [|split]]]].
+  - intros [v [Hin Hn]]. unfold id_ok_any in Hid.
+    assert (Hin' : In v (filter is_num (ci_values "id" (cd_entry d)))) by (apply filter_In; auto).
+    destruct (filter is_num (ci_values "id" (cd_entry d))) as [|a l] eqn:Ef; [destruct Hin'|].
+    apply existsb_exists in Hid as [w [Hw Hok]]. rewrite <- Ef in Hw. apply filter_In in Hw as [Hw Hwn].
+    destruct w as [z| | |]; cbn in Hok, Hwn; try discriminate.
+    assert (cc_id cfg = z) by lia. subst z. split; [exact Hw|lia].
+  - intro Eu. rewrite Eu in Hc. apply andb_prop in Hc as [Hc1 Hc2]. split; [lia|now apply field_ok_any_sound].
+  - unfold start_ok_any in Hs. destruct (ci_values "startBlock" (cd_entry d)) as [|a l] eqn:E.
+    + left. split; [reflexivity|lia].
+    + right. apply existsb_num_in in Hs as [z [Hin Hz]]. assert (cc_start cfg = z) by lia. now subst z.
+  - destruct r; discriminate.
+Qed.
+
+(* using an accepted configuration leaves it as loaded - entries of any spelling *)
+Lemma use_ok_model_doc : forall d n, use_ok (model_doc d) (model_after (model_doc d) n) = true.
+Proof.
+  intros d n. unfold model_doc, obs_of. destruct (validate_doc d) as [cfg|] eqn:E; [|reflexivity].
+  apply validate_doc_some in E as (_ & _ & E).
+  unfold model_after, use_chain, use_ok. cbn [ca_cfg ca_rest_same ca_calcs].
+  assert (Hc : chain_cfg_eqb cfg cfg = true) by now apply chain_cfg_eqb_eq.
+  rewrite Hc. cbn [andb].
+  destruct (start_block_total _ _ E) as [z [Hz _]]. rewrite Hz.
+  apply forallb_forall. intros r Hr. apply repeat_spec in Hr. now subst r.
+Qed.
+
+(* what goes wrong when the validator looks the key up exactly while the decoder folds case *)
+Lemma exact_id_lookup_refuted :
+  exists d cfg, doc_wf d = true /\ ci_entries "id" (cd_entry d) = [("Id"%string, JNum 257)] /\
+    exact_validate_doc d = Some cfg /\ cc_id cfg = 1 /\
+    doc_ok d (exact_model_doc d) = false /\ validate_doc d = None.
+Proof.
+  exists (mkDoc Evm false false [("Id"%string, JNum 257); ("type"%string, JStr "evm")]), (mkChainCfg 1 5 10 0).
+  vm_compute. repeat split; reflexivity.
+Qed.
+
+(* an entry spelled as documented and loaded directly is what the constructors' model says *)
+Lemma validate_doc_canonical : forall k miss v i c s,
+  validate_doc (mkDoc k false miss
+     ([("id"%string, v)] ++ match i with Some z => [("blockInterval"%string, JNum z)] | None => [] end
+      ++ match c with Some z => [("blockConfirmations"%string, JNum z)] | None => [] end
+      ++ match s with Some z => [("startBlock"%string, JNum z)] | None => [] end))
+  = if id_value_valid v then validate (mkChainIn k miss v i c s) else None.
+Proof.
+  intros k miss v i c s. unfold validate_doc, validate_doc_with. cbn [cd_shared andb cd_entry].
+  destruct i as [zi|], c as [zc|], s as [zs|]; destruct (id_value_valid v) eqn:E;
+    unfold ids_valid; cbn; rewrite ?E; cbn; try reflexivity;
+    unfold doc_in, num_field, lookup_ci; cbn; rewrite ?orb_false_r; reflexivity.
+Qed.
+
 Local Open Scope string_scope.
 (* ---------------------------------------------------------------------------------------------- *)
 (* String-valued settings *)
